@@ -56,3 +56,58 @@ def static_vs_runtime(model, payload):
         if not (dict(rt) == dict(st) == dict(st_kw)) or dict(rt_def) != dict(st_def) or dict(rt_def) != dict(rt):
             return {"reproduced": True, "detail": "literal %r: run-time hash %s, static positional %s, static keyword %s, default run-time %s, default static %s" % (d, rt["b"][:8], st["b"][:8], st_kw["b"][:8], rt_def["b"][:8], st_def["b"][:8]), "inputs": {"literal": repr(d)}}
     return {"reproduced": False, "detail": "static and run-time hashes agree"}
+
+
+def _spelling_sweep(static):
+    """every way of spelling the same binding of def f(a, b=<d1>, c=<d2>) (positional prefix, keywords in any order,
+    defaulted parameters omitted) must give the same argument hashes -- at run time and for literals seen in source"""
+    import itertools
+    from dds.fun_args import get_arg_ctx, get_arg_ctx_ast
+
+    def f(a, b=2, c=3):
+        return a
+
+    names = ["a", "b", "c"]
+    defaults = {"b": 2, "c": 3}
+    for binding in itertools.product([1], [2, 5, None], [3, 7, 0]):
+        bound = dict(zip(names, binding))
+        ref = dict(get_arg_ctx(f, tuple(binding), {}).named_args)
+        for npos in range(0, 4):
+            rest = names[npos:]
+            # parameters that may be omitted: those bound to their default
+            omittable = [n for n in rest if n in defaults and bound[n] == defaults[n]]
+            for r in range(len(omittable) + 1):
+                for omit in itertools.combinations(omittable, r):
+                    kw_names = [n for n in rest if n not in omit]
+                    for order in itertools.permutations(kw_names):
+                        pos = [bound[n] for n in names[:npos]]
+                        kw = OrderedDict((n, bound[n]) for n in order)
+                        spelled = "f(%s)" % ", ".join([repr(x) for x in pos] + ["%s=%r" % (n, v) for n, v in kw.items()])
+                        try:
+                            if static:
+                                got = dict(get_arg_ctx_ast(f, [ast.Constant(x) for x in pos], OrderedDict((n, ast.Constant(v)) for n, v in kw.items())))
+                            else:
+                                got = dict(get_arg_ctx(f, tuple(pos), dict(kw)).named_args)
+                        except BaseException as e:
+                            return {"reproduced": True, "detail": "def f(a, b=2, c=3): %s raised %s %s" % (spelled, type(e).__name__, e), "inputs": {"call": spelled, "static": static}}
+                        if got != ref:
+                            diff = [n for n in names if got.get(n) != ref.get(n)]
+                            return {"reproduced": True, "detail": "def f(a, b=2, c=3): %s %s hashes %s differently from f%r" % ("the literal call" if static else "the call", spelled, diff, tuple(binding)), "inputs": {"call": spelled, "static": static, "differs_on": diff}}
+    return None
+
+
+_falsy_default0, _static_vs_runtime0 = falsy_default, static_vs_runtime
+
+
+def falsy_default(model, payload):
+    r = _falsy_default0(model, payload)
+    if r.get("reproduced"):
+        return r
+    return _spelling_sweep(False) or r
+
+
+def static_vs_runtime(model, payload):
+    r = _static_vs_runtime0(model, payload)
+    if r.get("reproduced"):
+        return r
+    return _spelling_sweep(True) or _spelling_sweep(False) or r
